@@ -75,6 +75,12 @@ AtomKinds(sec) ==
     {[m |-> "lit", c |-> c] : c \in LitSet(sec)}
     \cup {[m |-> "esc", c |-> c] : c \in EscSet(sec)}
     \cup {[m |-> "keep", c |-> c] : c \in {"p"} \cup (IF Lenient THEN KeepLenient(sec) ELSE {})}
+    \* "dbl": a backslash written as the pair \\ in a measurement, tag key/value or field key.  The
+    \* published tables do not list '\' as escapable there, while the property statement speaks of
+    \* escaped backslashes in names: the exact denotation is left open (one backslash or two), but
+    \* under either the pair does not escape what follows it.  Such points are emitted with
+    \* weak = TRUE and judged only on the consequences both readings share (see docs/asbuilt/C01.md).
+    \cup (IF Lenient /\ sec \in NameSecs THEN {[m |-> "dbl", c |-> "b"]} ELSE {})
 
 \* ---- generator ----
 PX == <<"x1", "x2", "x3", "x4">>        \* plain symbols of the first focus, by atom index
@@ -223,6 +229,11 @@ AllKeys(pt) == [i \in 1..pt.nt |-> NameOf(pt, "tagkey", i, KName[i], FALSE)] \o
                [j \in 1..pt.nf |-> NameOf(pt, "fieldkey", j, FName[j], FALSE)]
 DistinctKeys(pt) == \A a, b \in 1..(pt.nt + pt.nf) : a # b => AllKeys(pt)[a] # AllKeys(pt)[b]
 IsStrict(pt) == \A k \in 1..Len(pt.foci) : \A n \in 1..Len(pt.foci[k].atoms) :
+                   /\ pt.foci[k].atoms[n].m = "keep" => pt.foci[k].atoms[n].c = "p"
+                   /\ pt.foci[k].atoms[n].m # "dbl"
+HasDbl(pt) == \E k \in 1..Len(pt.foci) : \E n \in 1..Len(pt.foci[k].atoms) : pt.foci[k].atoms[n].m = "dbl"
+\* weak: the only non-strict construct is the doubled backslash
+IsWeak(pt) == HasDbl(pt) /\ \A k \in 1..Len(pt.foci) : \A n \in 1..Len(pt.foci[k].atoms) :
                    pt.foci[k].atoms[n].m = "keep" => pt.foci[k].atoms[n].c = "p"
 
 Points == {p \in FocusPoints \cup PairPoints \cup ValuePoints \cup TsPoints : DistinctKeys(p) /\ p.vfield <= p.nf}
@@ -249,11 +260,14 @@ Tk     == raw[i]
 NextC  == IF i + 1 <= Len(raw) THEN raw[i + 1].c ELSE "eof"
 LexSec == IF sec = "str" THEN "str" ELSE sec
 InName == sec \in NameSecs \cup {"str"}
+\* what a backslash escapes here; for points with a doubled backslash the lexer uses the pairing
+\* reading (\\ is one unit that escapes nothing after it)
+Esc(section) == EscSet(section) \cup (IF HasDbl(pt) THEN {"b"} ELSE {})
 
 \* a backslash followed by a character this section lets you escape: the pair denotes that character
 LexEscape ==
     /\ pc = "lex" /\ i <= Len(raw) /\ InName
-    /\ Tk.c = "b" /\ NextC \in EscSet(sec)
+    /\ Tk.c = "b" /\ NextC \in Esc(sec)
     /\ cur' = Append(cur, raw[i + 1]) /\ i' = i + 2
     /\ UNCHANGED <<pt, raw, sec, key, den, pc>>
 
@@ -267,7 +281,7 @@ IsDelim == \/ sec = "meas"     /\ Tk.c \in {"c", "s"}
 \* any other character (including a backslash that escapes nothing, and '"' outside strings) is literal
 LexLiteral ==
     /\ pc = "lex" /\ i <= Len(raw) /\ InName
-    /\ ~(Tk.c = "b" /\ NextC \in EscSet(sec))
+    /\ ~(Tk.c = "b" /\ NextC \in Esc(sec))
     /\ ~IsDelim
     /\ Tk.c \in {"p", "c", "s", "e", "q", "b"}
     /\ cur' = Append(cur, Tk) /\ i' = i + 1
@@ -334,13 +348,13 @@ RoundTrip == /\ pc # "invalid"
 Deterministic ==
     pc = "lex" /\ i <= Len(raw) =>
        Cardinality({a \in {"esc", "lit", "delim"} :
-                       \/ a = "esc"   /\ InName /\ Tk.c = "b" /\ NextC \in EscSet(sec)
-                       \/ a = "lit"   /\ InName /\ ~(Tk.c = "b" /\ NextC \in EscSet(sec)) /\ ~IsDelim
+                       \/ a = "esc"   /\ InName /\ Tk.c = "b" /\ NextC \in Esc(sec)
+                       \/ a = "lit"   /\ InName /\ ~(Tk.c = "b" /\ NextC \in Esc(sec)) /\ ~IsDelim
                        \/ a = "delim" /\ InName /\ IsDelim}) <= 1
 
 EmitInv ==
     (Emit /\ pc = "done") =>
-        PrintT(<<"TRACE", ToJson([fam |-> pt.fam, strict |-> IsStrict(pt),
+        PrintT(<<"TRACE", ToJson([fam |-> pt.fam, strict |-> IsStrict(pt), weak |-> IsWeak(pt),
                                   foci |-> [k \in 1..Len(pt.foci) |->
                                               [sec |-> pt.foci[k].pos.sec, i |-> pt.foci[k].pos.i,
                                                atoms |-> pt.foci[k].atoms]],
